@@ -1,8 +1,8 @@
 //! C18 — descriptor parsers/printers, name predicates, inner-class split/join.
-use crate::gal::*;
-use crate::prng::Rng;
-use crate::report::{guarded, Report};
-use crate::Ctx;
+use fbh::gal::*;
+use fbh::prng::Rng;
+use fbh::report::{guarded, Report};
+use fbh::Ctx;
 use duke::tree::class::{ArrClassName, ClassName, ObjClassName, ObjClassNameSlice};
 use duke::tree::descriptor::{ArrayType, ParsedFieldDescriptor, ParsedMethodDescriptor, ParsedReturnDescriptor, ReturnDescriptorSlice, Type};
 use duke::tree::field::{FieldDescriptorSlice, FieldName};
@@ -354,3 +354,5 @@ pub fn run(ctx: &Ctx) -> anyhow::Result<Report> {
 	}
 	Ok(r)
 }
+
+fn main() -> anyhow::Result<()> { fbh::main_with(run) }
